@@ -18,15 +18,20 @@ for b in ben:
     brow.append(f"| {b} | {re.sub(chr(10), ' ', str(m.get('summary','')))[:260].replace('|','/')} | {', '.join(m.get('files', []))[:120]} |")
 text = f"""## 11. Seeded changes and which checks catch them
 
-{len(rows)} property-breaking changes (six per property, written in four rounds) and {len(ben)} behaviour-preserving refactors were produced by
+{len(rows)} property-breaking changes (ten per property, written in five rounds) and {len(ben)} behaviour-preserving refactors were produced by
 fresh sub-agents that saw only the text of one property (or, for the refactors, a list of files) and a scratch worktree of /repo -
 nothing from /verif. Each property-breaking change was confirmed by me in a scratch worktree (`tools/confirm_mut.sh`: the patch applies,
 the 179 tests pass with it, its demonstration fails with it and passes without it) and then run against the registered quick check of
 its property (`tools/try_mut.sh` on /repo itself with `git apply` / `git checkout -- .`, later `tools/lane.sh`: a patched scratch
-worktree plus a private copy of /verif, so that several can run in parallel). Rounds 2-3 told the sub-agents which ideas had been used
-and asked for different kinds (helper modules, tables, Python idiom slips, feature interactions, boundary values, histories).
+worktree plus a private copy of /verif, so that several can run in parallel). Rounds 2-4 told the sub-agents which ideas had been used
+and asked for different kinds (helper modules, tables, Python idiom slips, feature interactions, boundary values, histories, data-flow slips,
+shape-gated tolerance features, exception handling, check ordering); round 5 was a red-team round: the sub-agents were told what the harness
+consists of and asked for changes it is LEAST likely to notice (each explains the blind spot it aims at in `meta.json`).
 
-**Result.** All {len(rows)} changes are reported with a concrete failing input by the quick check of the property they break
+**Result.** {len(rows) - 1} of the {len(rows)} changes are reported with a concrete failing input by the quick check of the property they break; one
+(C06_10, a whole new attestation format added to the library) is reported as a broken proof obligation (`no-failing-input-found`: the
+"seven formats" theorem no longer checks against the regenerated enum), because no ceremony of a format that does not exist in the model is
+generated
 (`tools/all_seeds.sh` / the lane runner re-run them all after every strengthening). {len(missed)} of them were initially MISSED, or
 reported only as a broken proof / correspondence without a failing input; for each the generator or catalogue was strengthened (never
 the expectation loosened), and the list below records what was missing. The {len(ben)} behaviour-preserving refactors (extract / inline
@@ -43,6 +48,15 @@ case variants, printable text and aliases (base64url text vs its decoding); empt
 empty extension map, empty raw id, empty or half-length bound digests) and rare key shapes (Ed25519 / P-256 coordinates beginning with
 0x00 or 0x04, RSA exponents that are not byte palindromes, short DER signatures, 66-byte P-521 coordinates) are where table and
 length slips hide; and introspecting the code (default arguments) is weaker than probing its behaviour.
+Round 4 and the red-team round added: the dimension "how the interpreter was started" (`assert`-based checks vanish under `python -O`, warnings become
+errors under `-W error`, a fallback consults `SSL_CERT_FILE`, `datetime.now()` depends on `TZ`): every check now re-runs a seeded case list in
+child interpreters under seven process environments and compares line by line (`fw.env_invariance`, `harness/envprobe.py`); things the code under
+test IGNORES today but a "tolerant" change may start to honour (registered extension outputs such as `uvm`, Level-3 client-data members such as
+`topOrigin`, snake_case member aliases, `toJSON()` convenience copies, `clientExtensionResults`, certificate extensions, PEM preambles, an outer
+rawId that differs from the attested id) - decoys naming the EXPECTED value are now planted next to every fault; genuine recorded attestations
+that chain to the REAL built-in anchors (so that code which stops using the substitutable module attributes is still exercised); value semantics
+of results (an earlier result re-read after later calls), decoder state across calls (CBOR tags 28 / 29), the same credential object verified
+again after one of its fields changed; and arguments that coincide with one another (user id = user name).
 
 Initially missed, and why:
 
